@@ -28,7 +28,11 @@ import (
 	"encoding/base64"
 	"encoding/hex"
 	"encoding/json"
+	"errors"
+	"fmt"
+	"io"
 	"net/http"
+	"net/http/httptest"
 	"sort"
 	"strconv"
 	"strings"
@@ -50,6 +54,9 @@ func init() {
 	gen.RegisterOp("c18", "statusrt", func(c *gen.Ctx, raw json.RawMessage) any { return c18StatusRT(c, gen.Into[c18StatusRTIn](raw)) })
 	gen.RegisterOp("c18", "mdrt", func(_ *gen.Ctx, raw json.RawMessage) any { return c18MDRT(gen.Into[c18MDIn](raw)) })
 	gen.RegisterOp("c18", "hdrrt", func(_ *gen.Ctx, raw json.RawMessage) any { return c18HdrRT(gen.Into[c18HdrRTIn](raw)) })
+	gen.RegisterOp("c18", "anyconn", func(_ *gen.Ctx, raw json.RawMessage) any { return c18AnyConn(gen.Into[c18AnyErrIn](raw)) })
+	gen.RegisterOp("c18", "nilconv", func(_ *gen.Ctx, _ json.RawMessage) any { return c18NilConv() })
+	gen.RegisterOp("c18", "getrt", func(_ *gen.Ctx, raw json.RawMessage) any { return c18GetRT(gen.Into[c18GetRTIn](raw)) })
 }
 
 // ---------------------------------------------------------------- status trailers: server -> client
@@ -436,4 +443,172 @@ func c18HdrRTGen(c *gen.Ctx) {
 		do(h)
 	}
 	c.E.Add("hdrrt", n)
+}
+
+// ---------------------------------------------------------------- the GET `message` query parameter
+
+// getrt: the request message of a Connect GET travels in the `message` query parameter. The
+// reference client's raw request sender encodes it (base64.URLEncoding when base64_encode is set,
+// then url.Values.Encode); the reference server (connect-go's GET handling in front of the
+// repository's handler) decodes it and echoes both the decoded request (RequestInfo.requests) and
+// the query parameters as received (ConnectGetInfo.query_params).
+type c18GetRTIn struct {
+	Data   string `json:"data"`   // hex: UnaryRequest.request_data
+	JSON   bool   `json:"json"`   // encoding=json (else proto)
+	Base64 bool   `json:"base64"` // base64_encode / base64=1 (always for proto)
+}
+type c18GetRTOut struct {
+	Fail    string `json:"fail,omitempty"`
+	Status  int    `json:"status"`
+	Sent    string `json:"sent"`    // hex: the encoded message handed to the sender
+	Param   string `json:"param"`   // hex: the `message` parameter the server echoed
+	Decoded bool   `json:"decoded"` // the echoed request is an IdempotentUnaryRequest
+	Data    string `json:"data"`    // hex: its request_data
+}
+
+type c18HandlerTransport struct{ h http.Handler }
+
+func (t c18HandlerTransport) RoundTrip(req *http.Request) (*http.Response, error) {
+	rec := httptest.NewRecorder()
+	t.h.ServeHTTP(rec, req)
+	return rec.Result(), nil
+}
+
+var c18GetHandler = referenceserver.VerifC13Handler()
+
+func c18GetRT(in c18GetRTIn) c18GetRTOut {
+	data := c18MustUnhex(in.Data)
+	reqMsg := &conformancev1.IdempotentUnaryRequest{RequestData: data}
+	var encoded []byte
+	var err error
+	enc := "proto"
+	if in.JSON {
+		enc = "json"
+		encoded, err = internal.StrictJSONCodec{}.MarshalStable(reqMsg)
+	} else {
+		encoded, err = proto.Marshal(reqMsg)
+	}
+	if err != nil {
+		return c18GetRTOut{Fail: "marshal: " + err.Error()}
+	}
+	uri := "/connectrpc.conformance.v1.ConformanceService/IdempotentUnary?connect=v1&encoding=" + enc
+	if in.Base64 {
+		uri += "&base64=1"
+	}
+	raw := &conformancev1.RawHTTPRequest{
+		Verb: http.MethodGet, Uri: uri,
+		EncodedQueryParams: []*conformancev1.RawHTTPRequest_EncodedQueryParam{{
+			Name: "message", Base64Encode: in.Base64,
+			Value: &conformancev1.MessageContents{Data: &conformancev1.MessageContents_Binary{Binary: encoded}},
+		}},
+	}
+	rt := rc.VerifC17RawRequestSender(c18HandlerTransport{c18GetHandler}, raw)
+	orig, _ := http.NewRequestWithContext(context.Background(), http.MethodGet, "http://verif.test/", http.NoBody)
+	resp, err := rt.RoundTrip(orig)
+	out := c18GetRTOut{Sent: gen.Hex(encoded)}
+	if err != nil {
+		out.Fail = "round trip: " + err.Error()
+		return out
+	}
+	body, _ := io.ReadAll(resp.Body)
+	_ = resp.Body.Close()
+	out.Status = resp.StatusCode
+	if resp.StatusCode != http.StatusOK {
+		return out
+	}
+	var respMsg conformancev1.IdempotentUnaryResponse
+	if in.JSON {
+		err = internal.StrictJSONCodec{}.Unmarshal(body, &respMsg)
+	} else {
+		err = proto.Unmarshal(body, &respMsg)
+	}
+	if err != nil {
+		out.Fail = "response: " + err.Error()
+		return out
+	}
+	info := respMsg.GetPayload().GetRequestInfo()
+	for _, p := range info.GetConnectGetInfo().GetQueryParams() {
+		if p.Name == "message" && len(p.Value) == 1 {
+			out.Param = gen.Hex([]byte(p.Value[0]))
+		}
+	}
+	if len(info.GetRequests()) == 1 {
+		var got conformancev1.IdempotentUnaryRequest
+		if info.Requests[0].UnmarshalTo(&got) == nil {
+			out.Decoded = true
+			out.Data = gen.Hex(got.RequestData)
+		}
+	}
+	return out
+}
+
+func c18GetRTGen(c *gen.Ctx) {
+	r := c.R
+	n := 0
+	do := func(data []byte, json, b64 bool) {
+		c.Do("getrt", c18GetRTIn{Data: gen.Hex(data), JSON: json, Base64: b64})
+		n++
+	}
+	// every byte value, in each of the three positions of a base64 quantum (so that every URL-safe
+	// character and both kinds of padding occur), proto and JSON, with and without base64
+	for b := 0; b < 256; b++ {
+		for _, d := range [][]byte{{byte(b)}, {0xfb, byte(b)}, {0xff, 0xfe, byte(b)}} {
+			do(d, false, true)
+			if b%4 == 0 || c.Thorough() {
+				do(d, true, true)
+				do(d, true, false)
+			}
+		}
+	}
+	for l := 0; l <= 12; l++ {
+		do(make([]byte, l), false, true)
+		do(r.Bytes(l), true, false)
+	}
+	nRand := 300
+	if c.Thorough() {
+		nRand = 10000
+	}
+	for i := 0; i < nRand; i++ {
+		js := r.Intn(3) == 0
+		do(r.Bytes(r.Intn(40)), js, !js || r.Bool())
+	}
+	c.E.Add("getrt", n)
+}
+
+// ---------------------------------------------------------------- ConvertErrorToConnectError, nil branches
+
+// anyconn: ConvertErrorToConnectError on nil / a plain error / a Connect error / a wrapped Connect
+// error; the result is shown in proto form (ConvertConnectToProtoError), null for nil.
+func c18AnyConn(in c18AnyErrIn) *c18PErr {
+	var err error
+	switch in.Kind {
+	case "nil":
+	case "plain":
+		err = errors.New(in.Text)
+	case "connect":
+		err = internal.ConvertProtoToConnectError(c18Proto(in.Err))
+	case "wrapped":
+		err = fmt.Errorf("%s: %w", in.Text, internal.ConvertProtoToConnectError(c18Proto(in.Err)))
+	}
+	return c18FromProto(internal.ConvertConnectToProtoError(internal.ConvertErrorToConnectError(err)))
+}
+
+type c18NilOut struct {
+	ProtoToConnect bool `json:"protoToConnect"` // ConvertProtoToConnectError(nil) == nil
+	ConnectToProto bool `json:"connectToProto"`
+	ProtoToGrpc    bool `json:"protoToGrpc"`
+	GrpcToProto    bool `json:"grpcToProto"`
+	ErrToConnect   bool `json:"errToConnect"`
+	ErrToProto     bool `json:"errToProto"`
+}
+
+func c18NilConv() c18NilOut {
+	return c18NilOut{
+		ProtoToConnect: internal.ConvertProtoToConnectError(nil) == nil,
+		ConnectToProto: internal.ConvertConnectToProtoError(nil) == nil,
+		ProtoToGrpc:    grpcutil.ConvertProtoToGrpcError(nil) == nil,
+		GrpcToProto:    grpcutil.ConvertGrpcToProtoError(nil) == nil,
+		ErrToConnect:   internal.ConvertErrorToConnectError(nil) == nil,
+		ErrToProto:     internal.ConvertErrorToProtoError(nil) == nil,
+	}
 }
